@@ -174,7 +174,7 @@ def run(run_, ctx):
         bad = []
         cases = [0] + [1 << k for k in range(64)] + [(1 << k) - 1 for k in range(1, 65)]
         for v in cases:
-            eng = sym.Engine(F, inline=lambda fn, ev: fn.argc == 0, max_visits=3)
+            eng = sym.Engine(F, inline=sym.inline_consts, max_visits=3)
             ps = [p for p in eng.run(f, [C(v, "usize")]) if p.status == "return"]
             if len(ps) != 1 or not sym.is_c(ps[0].ret):
                 bad.append("varint_size(%d) does not fold to a constant" % v)
@@ -194,7 +194,7 @@ def run(run_, ctx):
         f = fvm[0]
         bad = []
         for ty, size in (("u8", 1), ("u16", 2), ("u32", 4), ("u64", 8), ("u128", 16), ("usize", 8), ("i16", 2), ("i128", 16)):
-            eng = sym.Engine(F, max_visits=2)
+            eng = sym.Engine(F, max_visits=2, inline=sym.inline_consts)
             eng.root_subst = {"T": ty}
             ps = [p for p in eng.run(f) if p.status == "return"]
             if len(ps) != 1 or not sym.is_c(ps[0].ret) or ps[0].ret[1] != (8 * size + 6) // 7:
